@@ -98,7 +98,8 @@ def make_family(name, reg0, settings, retarget=None, symbolic=True, dedup=False)
         res["validate"] = dict(case, expect=exp)
         res["sample"] = {"registry": describe(concretize(reg, m), 8), "settings": settings.d}
         return res
-    return Family(name, mk, run, witnesses=(), target_prefixes=1)
+    f = Family(name, mk, run, witnesses=(), target_prefixes=1); f.partition = symbolic and not retarget
+    return f
 GLOBAL_WITNESSES = ("Ok",)
 
 def families(eng, tier, seed):
